@@ -988,6 +988,7 @@ impl<K: KeyT, V: ValT> MapWorld<K, V> {
         let toks: Vec<(u32, u32, u32, u32)> = items.iter().map(|(k, v)| (k.id(), k.serial(), v.val(), v.serial())).collect();
         sim().probe(Probe::FromArray);
         sim().quiet = true;
+        let extra = [0usize, 0, 1, 3, 9, 23, 100][(pairs.iter().map(|p| p.0).sum::<u32>() as usize + pairs.len()) % 7];
         let r = std::panic::catch_unwind(std::panic::AssertUnwindSafe(|| {
             let m: DMap<K, V> = match items.len() {
                 0 => build::<K, V, 0>(items),
@@ -1002,14 +1003,18 @@ impl<K: KeyT, V: ValT> MapWorld<K, V> {
             let len = m.len();
             let ok = m.iter().all(|(k, v)| k.intact() && v.intact());
             drop(m);
-            (got, len, ok)
+            let ct = crate::ctors::map_ctors::<K, V>(pairs, extra);
+            (got, len, ok, ct)
         }));
         sim().quiet = false;
         let _ = op;
-        let (mut got, len, ok) = match r {
+        let (mut got, len, ok, ct) = match r {
             Ok(x) => x,
             Err(_) => vio!(self, "panic/FromIter", "HashMap::from(array of {} pairs) panicked", toks.len()),
         };
+        if let Err((class, msg)) = ct {
+            vio!(self, class, "{}", msg);
+        }
         if !ok {
             vio!(self, "ledger/invalid-ref", "HashMap::from(array) holds an element that is not live");
         }
